@@ -122,6 +122,19 @@ def run(ctx, out):
         for gi in range(2 if (quick or kind == "deep") else 3):
             data = gen_data(rng, rng.choice((3, 6, 10, 16)))
             cases.append((kind, a, data))
+    # closures that have to walk *through* a literal: the inner path contains an inverse step, the literal is the object of
+    # several subjects (a literal has no outgoing edges, but it has incoming ones)
+    P, Q = ("p", PREDS[0]), ("p", PREDS[1])
+    hub_paths = [("plus", ("alt", [Q, ("inv", P)])), ("star", ("alt", [P, ("inv", P)])), ("plus", ("seq", [P, ("inv", P)])),
+                 ("star", ("seq", [Q, ("inv", Q)])), ("plus", ("alt", [("inv", Q), P])), ("opt", ("seq", [P, ("inv", P)])),
+                 ("seq", [("star", ("alt", [P, ("inv", P)])), Q]), ("inv", ("plus", ("alt", [P, ("inv", Q)])))]
+    for a in hub_paths:
+        for gi in range(2 if quick else 6):
+            hub, hub2 = Literal("x"), Literal(rng.choice([7, 0, True]))
+            data = [(NODES[0], PREDS[1], hub), (NODES[2], PREDS[0], hub), (NODES[2], PREDS[1], NODES[3]), (NODES[4], PREDS[0], hub2),
+                    (NODES[1], PREDS[0], hub2), (NODES[1], PREDS[1], hub), (NODES[3], PREDS[0], Literal("leaf"))]
+            data += gen_data(rng, rng.choice((0, 3, 6)))
+            cases.append(("lit-hub", a, sorted(set(data), key=lambda t: tuple(wire.tkey(x) for x in t))))
     lines, meta = [], {}
     for i, (kind, a, data) in enumerate(cases):
         sg, pnode = build_shapes(a)
